@@ -16,7 +16,8 @@ use std::sync::Arc;
 use std::time::{Duration, Instant};
 use tokio::sync::{mpsc, oneshot};
 
-pub const REQUEST_TIMEOUT: Duration = Duration::from_secs(1);
+// deliberately not the default (1 s): a configured value that never reaches the handler must show
+pub const REQUEST_TIMEOUT: Duration = Duration::from_millis(1500);
 
 /* ------------------------------------------------------------------------------------ */
 /* Configuration and events                                                              */
